@@ -25,7 +25,9 @@ contract("ArgumentMapping.__init__", source=M + "ArgumentMapping.__init__",
              # a keyword naming a parameter binds it; other keywords are kept
              "forall(lambda a: implies(0 <= a and a < len(call_info.keywords) and is_param(definition_info, call_info.keywords[a][0]), "
              "       select(self.param_dict, call_info.keywords[a][0]) == Some(call_info.keywords[a][1])))",
-             "forall(lambda a: implies(0 <= a and a < len(self.keyword_args), not is_param(definition_info, self.keyword_args[a][0])))"],
+             "forall(lambda a: implies(0 <= a and a < len(self.keyword_args), not is_param(definition_info, self.keyword_args[a][0])))",
+             # ... every one of them
+             "forall(lambda a: implies(0 <= a and a < len(call_info.keywords) and not is_param(definition_info, call_info.keywords[a][0]), call_info.keywords[a] in self.keyword_args))"],
          loops={1: {"index": "i", "inv": [
                         "len(self.keyword_args) == 0",
                         "forall(lambda k: implies(0 <= k and k < min(i, len(definition_info.args_with_defaults)), select(self.param_dict, pname(definition_info, k)) == Some(call_info.args[k])))",
@@ -35,7 +37,8 @@ contract("ArgumentMapping.__init__", source=M + "ArgumentMapping.__init__",
                         "forall(lambda k: implies(0 <= k and k < npos(definition_info, call_info), select(self.param_dict, pname(definition_info, k)) == Some(call_info.args[k])))",
                         "self.args_arg == call_info.args[npos(definition_info, call_info):len(call_info.args)]",
                         "forall(lambda a: implies(0 <= a and a < j and is_param(definition_info, call_info.keywords[a][0]), select(self.param_dict, call_info.keywords[a][0]) == Some(call_info.keywords[a][1])))",
-                        "forall(lambda a: implies(0 <= a and a < len(self.keyword_args), not is_param(definition_info, self.keyword_args[a][0])))"]},
+                        "forall(lambda a: implies(0 <= a and a < len(self.keyword_args), not is_param(definition_info, self.keyword_args[a][0])))",
+                        "forall(lambda a: implies(0 <= a and a < j and not is_param(definition_info, call_info.keywords[a][0]), call_info.keywords[a] in self.keyword_args))"]},
                 3: {"index": "m", "inv": ["forall(lambda k: implies(0 <= k and k < m, pname(definition_info, k) != name))"]}},
          note="argument texts are opaque (only moved and compared)")
 
@@ -73,11 +76,17 @@ contract("ArgumentMapping.to_call_info", source=M + "ArgumentMapping.to_call_inf
              "forall(lambda t: implies(0 <= t and t < len(result.keywords) - len(self.keyword_args), "
              "       Some(result.keywords[t][1]) == select(self.param_dict, result.keywords[t][0])))",
              "forall(lambda j: implies(0 <= j and j < len(self.keyword_args), result.keywords[len(result.keywords) - len(self.keyword_args) + j] == self.keyword_args[j]))",
-             "result.function_name == self.call_info.function_name and result.args_arg == self.call_info.args_arg and result.keywords_arg == self.call_info.keywords_arg"],
+             "result.function_name == self.call_info.function_name and result.args_arg == self.call_info.args_arg and result.keywords_arg == self.call_info.keywords_arg",
+             "result.implicit_arg == self.call_info.implicit_arg and result.constructor == self.call_info.constructor",
+             # no bound parameter is lost: one after the positional prefix is passed by keyword
+             "forall(lambda i: implies(k <= i and i < len(definition_info.args_with_defaults) and bound_in(self, pname(definition_info, i)), "
+             "       (pname(definition_info, i), val(select(self.param_dict, pname(definition_info, i)))) in result.keywords))"],
          loops={1: {"index": "a", "inv": ["len(keywords) == 0", "a <= k", "len(args) == a",
                                           "forall(lambda j: implies(0 <= j and j < a, Some(args[j]) == select(self.param_dict, pname(definition_info, j))))"]},
                 2: {"index": "b", "inv": ["len(args) == index", "index == k",
                                           "forall(lambda j: implies(0 <= j and j < len(args), Some(args[j]) == select(self.param_dict, pname(definition_info, j))))",
-                                          "forall(lambda t: implies(0 <= t and t < len(keywords), Some(keywords[t][1]) == select(self.param_dict, keywords[t][0])))"]}},
+                                          "forall(lambda t: implies(0 <= t and t < len(keywords), Some(keywords[t][1]) == select(self.param_dict, keywords[t][0])))",
+                                          "forall(lambda i: implies(k <= i and i < k + b and bound_in(self, pname(definition_info, i)), "
+                                          "       (pname(definition_info, i), val(select(self.param_dict, pname(definition_info, i)))) in keywords))"]}},
          note="what is emitted positionally is exactly the bound prefix; what is emitted by keyword is a parameter with its own value (so the re-bound call gives "
               "every parameter the value the mapping holds); surplus positionals after an incomplete prefix are the known finding #23")
